@@ -117,6 +117,48 @@ def run_pad(P, boundary, fill_value, widths, data=None, grid=None, other=None):
     return fi_paths, calls
 
 
+def in_force(P, boundary, fill_value, axnames=("AX",)):
+    """The (rule, fill value) mappings that pad() itself puts in force for the given per-call values on a grid with the
+    given axes: two spellings of an option are the same request iff these agree.  The opaque tokens $USER_BOUNDARY /
+    $USER_FILL of the harnesses stand for a rule word and a number different from the grid's defaults.  None if pad() refuses."""
+    from ..xmodel import make_grid
+
+    def subst(v):
+        if isinstance(v, dict):
+            return {k: subst(x) for k, x in v.items()}
+        if isinstance(v, (list, tuple)):
+            return type(v)(subst(x) for x in v)
+        if v == Sym("USER_BOUNDARY"):
+            return "extend"
+        if v == Sym("USER_FILL"):
+            return 7.25
+        return v
+
+    paths, calls = run_pad(P, subst(boundary), subst(fill_value), {Sym(a): (1, 1) for a in axnames}, grid=lambda: make_grid(axnames, boundary="fill", fill_value=0.5),
+                           data=lambda: make_da("da", [Sym("t")] + [dimsym(a, "center") for a in axnames]))
+    if not paths or any(o.kind != "return" for o in paths) or not calls:
+        return None
+    got = [(c.get("padding"), c.get("fill_value")) for c in calls]
+    return got[0] if all(g == got[0] for g in got) else None
+
+
+def same_option(P, name, arrived, wanted, axnames=("AX",)):
+    """Is `arrived` the same request for the option `name` ('boundary' / 'fill_value') as `wanted`: identical, or resolved by
+    pad() to the same mapping in force (e.g. the caller's value already completed with the axis defaults)?"""
+    if arrived == wanted:
+        return True
+    if name not in ("boundary", "fill_value"):
+        return False
+    try:
+        if name == "boundary":
+            a, w = in_force(P, arrived, None, axnames), in_force(P, wanted, None, axnames)
+            return a is not None and w is not None and a[0] == w[0]
+        a, w = in_force(P, "fill", arrived, axnames), in_force(P, "fill", wanted, axnames)
+        return a is not None and w is not None and a[1] == w[1]
+    except Unmodelled:
+        return False
+
+
 def check(ctx):
     P = ctx.project
     padfi = P.func("padding:pad")
